@@ -328,7 +328,7 @@ func buildForm(r *Rng, m *ISet, form string) (*BM, string) {
 					hi = r.Range(lo, v.Hi)
 				}
 				k := r.Intn(3)
-				if hi-lo > 64 {
+				if hi-lo > 64 || (hi > lo && r.Chance(0.5)) {
 					parts[k].AddRange(lo, hi+1)
 				} else {
 					for x := lo; x <= hi; x++ {
@@ -344,7 +344,16 @@ func buildForm(r *Rng, m *ISet, form string) (*BM, string) {
 		if r.Chance(0.5) {
 			parts[r.Intn(3)].RunOptimize()
 		}
-		switch r.Intn(4) {
+		switch r.Intn(6) {
+		case 4:
+			// in-place unions in a random order (touching pieces of one interval meet as receiver / argument)
+			o := r.Perm(3)
+			b = parts[o[0]].Clone()
+			b.Or(parts[o[1]])
+			b.Or(parts[o[2]])
+		case 5:
+			o := r.Perm(3)
+			b = roaring.Or(roaring.Or(parts[o[0]], parts[o[1]]), parts[o[2]])
 		case 0:
 			b = roaring.FastOr(parts[0], parts[1], parts[2])
 		case 1:
